@@ -1,6 +1,9 @@
 ------------------------------ MODULE MC_Runner ------------------------------
 EXTENDS Runner, TLC, Json
 AllDone == call = NCalls + 1
+\* large calls (sizes beyond typical buffer / block thresholds 128, 256, 1000, 1024) for the replay generators
+BigGeneric == {<<257, 0>>, <<130, 1030>>, <<1025, 3>>}
+BigHmc == {<<257, 0>>, <<3, 300>>}
 \* one REPLAY line per call history (the result does not depend on the interleaving: Exact)
 Emit == AllDone =>
   PrintT(<<"REPLAY", ToJson([variant |-> Variant, calls |-> Calls,
